@@ -429,6 +429,10 @@ def getItem (g : Grid) (p : Coord) : Except Err (List Aid) :=
 
 end Grid
 
+/-- another space's `place_agent` wrote `agent.pos` of an agent that is not on this grid (outside C08's
+    quantifier — an agent shared between two spaces; kept for the tie and for `C08_remove_foreign_agent`) -/
+def Grid.foreignPos (g : Grid) (a : Aid) (p : Coord) : Grid := { g with pos := updA g.pos a (some p) }
+
 /-! ### histories -/
 
 inductive Op where
